@@ -442,6 +442,26 @@ def processConc (h : Hist) (b : Block) (otoks : List String) : Hist :=
               let n := ((inboxOf c b.ds).filter f).length
               if n == 1 then none else some s!"connection {c} received the relay of connection {t.1}'s {reqKind r} {n} times"
         | _, _ => []
+      -- C03 under concurrency: once a connection has been answered its join, it is sent nothing from the session it left
+      let lateRelays : List String := tasks.flatMap fun (t : Nat × Option Req) =>
+        match t.2 with
+        | some (.custom ots _ _) =>
+          match h.srv.locate t.1 with
+          | some (sm, _) =>
+            (b.ds.map Prod.fst).eraseDups.filterMap fun k =>
+              if k == t.1 || movers.contains t.1 then none else
+              let inbox := inboxOf k b.ds
+              let after := (inbox.dropWhile fun (o : Out) => match o with | .joinResp .. => false | _ => true)
+              match after with
+              | .joinResp _ _ uuid _ :: rest =>
+                if uuid != sm.uuid && rest.any (fun (o : Out) => match o with | .customBcast o' _ _ => o' == ots | _ => false) then
+                  some s!"connection {k}, after the answer to its join of session uuid {uuid}, is sent the custom message of connection {t.1}, a member of session uuid {sm.uuid}"
+                else none
+              | _ => none
+          | none => []
+        | _ => []
+      let viol := if lateRelays.isEmpty then viol else
+        viol.push ("C03", "relay-from-a-session-already-left", flatS s!"{" ".intercalate b.ev} :: {lateRelays}")
       let viol := if relayIssues.isEmpty then viol else
         viol.push ("C02", "relay-not-exactly-once", flatS s!"{" ".intercalate b.ev} :: {relayIssues}")
       let viol := if dupP then viol.push ("C10", "participant-id-issued-twice", flatS s!"{" ".intercalate b.ev} :: {pids}") else viol
